@@ -253,24 +253,24 @@ def run(tier, seed):
                 ('long-strings', 1, A),
                 ('three-threads', 1, A), ('three-threads-mixed', 1, V)]
     else:
-        plan = [('name-vs-subclass', 2, A),
-                ('name-vs-same', 2, A), ('name-vs-same', 3, V),
-                ('name-twice-vs-subclass', 2, A),
-                ('name-vs-subclass', 2, O), ('name-vs-same', 2, O), ('stdlib-lazy', 1, O),
-                ('long-strings', 1, A), ('long-strings', 2, V),
+        plan = [('name-vs-subclass', 2, A), ('name-vs-subclass', 2, O),
+                ('name-vs-same', 2, A), ('name-vs-same', 2, O), ('name-vs-same', 3, V),
+                ('name-twice-vs-subclass', 1, A), ('name-twice-vs-subclass', 2, V),
                 ('nested-vs-direct', 1, A), ('nested-vs-direct', 2, V),
                 ('unregistered-vs-containers', 1, A), ('unregistered-vs-containers', 2, V),
                 ('structseq', 1, A),
-                ('stdlib-lazy', 1, A), ('stdlib-lazy', 2, V),
+                ('stdlib-lazy', 1, A), ('stdlib-lazy', 1, O),
+                ('long-strings', 1, A), ('long-strings', 2, V),
                 ('three-threads', 1, A), ('three-threads', 2, V),
-                ('three-threads-mixed', 1, A), ('three-threads-mixed', 2, V)]
+                ('three-threads-mixed', 1, A)]
     desc = []
     for (s, bound, vis) in plan:
         before = res.agg.n
+        t0 = time.time()
         points, nout = explore_scenario(res, s, bound, vis)
         desc.append({'scenario': s, 'preemption_bound': bound,
                      'preempt_at': 'every bytecode of visible functions + visible lines' if vis == 'opcodes' else 'visible lines' if vis else 'every package line',
-                     'executions': res.agg.n - before, 'scheduling_points_in_default_run': points,
+                     'executions': res.agg.n - before, 'wall_s': round(time.time() - t0, 1), 'scheduling_points_in_default_run': points,
                      'distinct_outcomes': nout})
     a = res.agg
     res.coverage = {
